@@ -64,7 +64,7 @@ def handle (op : String) (args : List String) : String :=
   | "rewrite", [fl, ph] =>
     match Hex.dec ph with
     | some p =>
-      match rewriteWith (parseFlags fl) p with
+      match rewriteWithM Generated.UBlocks.mceTable (parseFlags fl) p with
       | .ok t => "ok " ++ Hex.enc t
       | .error e => "err " ++ e.name
     | none => "err BadHex"
@@ -75,6 +75,8 @@ def handle (op : String) (args : List String) : String :=
       | .error e => "err " ++ e.name
       | .ok pat => "ok " ++ Hex.enc (bytesOfString pat.toPcre)
     | none => "err BadHex"
+  | "mce", _ => "ok " ++ (if Generated.UBlocks.mceTable.isEmpty then "-" else
+      String.ofList (Generated.UBlocks.mceTable.map fun e => Char.ofNat e.1.toNat))
   | "opts", _ => "ok " ++ ",".intercalate (Generated.UBlocks.compileOpts.toArray.qsort (· < ·)).toList
   | "features", [ph] =>
     match Hex.dec ph with
